@@ -570,6 +570,9 @@ def gen_dataset(rng, k):
     kind = kinds[k % len(kinds)]
     family = "billing" if k % 4 == 3 else "daily"
     profile = rng.choice(["current", "current", "legacy"]) if family == "daily" else "billing"
+    if k <= -3000:  # one-sided baselines with a soft knee: the selected sub-model is hdd_tidd_smooth / tidd_cdd_smooth
+        return {"kind": ["heating_soft_knee", "cooling_soft_knee"][(-k - 3000) % 2], "family": "daily", "profile": "current",
+                "seed": rng.randrange(2**31), "ndays": 365, "noise": 0.6, "knee": rng.choice([5.0, 6.0, 8.0])}
     if k <= -2000:  # the billing-settings profile (BillingWeightedModel: one row per billing period, segment_minimum_count 3)
         return {"kind": rng.choice(["both", "heating_only", "cooling_only"]), "family": "billing_weighted", "profile": "billing_settings",
                 "seed": rng.randrange(2**31), "ndays": 365, "noise": rng.choice([0.01, 0.03]), "nperiods": rng.choice([11, 12, 12, 13])}
@@ -639,6 +642,19 @@ def build_and_fit(ds):
     import fitlib
     from opendsm.eemeter import BillingModel, DailyModel
     rng = random.Random(ds["seed"])
+    if ds["kind"] in ("heating_soft_knee", "cooling_soft_knee"):
+        import pandas as pd
+        r = np.random.default_rng(ds["seed"])
+        n = ds["ndays"]
+        idx = pd.date_range("2021-01-01", periods=n, freq="D", tz="US/Central")
+        T = 55 - 25 * np.cos(2 * np.pi * (np.arange(n) - 15) / 365.0) + r.normal(0, 5, n)
+        kn = ds["knee"]
+        load = 0.9 * kn * np.logaddexp(0.0, ((60.0 - T) if ds["kind"] == "heating_soft_knee" else (T - 62.0)) / kn)
+        y = 15.0 + load + r.normal(0, ds["noise"], n)
+        data = fitlib.daily_baseline(pd.DataFrame({"temperature": T, "observed": y}, index=idx))
+        model = DailyModel()
+        model.fit(data, ignore_disqualification=True)
+        return model, data
     if ds["family"] == "billing_weighted":
         import contextlib
         import io
@@ -709,10 +725,10 @@ def build_and_fit(ds):
 OVERRIDDEN_BY_FIT = {"developer_mode", "silent_developer_mode", "alpha_final_type", "final_bounds_scalar", "regularization_alpha"}
 
 
-def stream_fits(run, n, n_reused=0, n_split=0, n_weighted=0):
+def stream_fits(run, n, n_reused=0, n_split=0, n_weighted=0, n_knee=0):
     acc = {"refine": [], "curves": [], "meta": []}
     for k in (list(range(n)) + [-(j + 1) for j in range(n_reused)] + [-(1000 + j) for j in range(n_split)] +
-              [-(2000 + j) for j in range(n_weighted)]):
+              [-(2000 + j) for j in range(n_weighted)] + [-(3000 + j) for j in range(n_knee)]):
         ds = gen_dataset(run.rng, k)
         try:
             model, data = build_and_fit(ds)
@@ -778,6 +794,18 @@ def stream_fits(run, n, n_reused=0, n_split=0, n_weighted=0):
                                   case={"dataset": ds, "component": comp}, observation={"named": obs[2], "days": want, "usage_q": q},
                                   generator="c12.fits")
             limits_of[comp] = (want, q)
+            if where == "model" and comp in model.params.submodels:
+                # the public prediction path on the component's baseline temperatures reproduces its fitted values
+                pub = np.asarray(model._predict_submodel(model.params.submodels[comp], np.asarray(res.T, float))[0], float)
+                mism3, d3 = curve_mismatch(res.model, pub)
+                if mism3:
+                    cause3 = classify_cause(key, raw, tc, info)
+                    run.violation(dict(sig, clause="predict() reproduces the fitted values", cause=cause3, **{"class": "readback"}),
+                                  "C12 %s [%s]: predict on the baseline temperatures differs from the fitted values the optimiser "
+                                  "scored (max |diff| %.3g): the stored model is not the model that was fitted"
+                                  % (label, obs[2]["model_type"], d3), case={"dataset": ds, "component": comp},
+                                  observation={"named": obs[2], "max_abs_diff": d3}, generator="c12.fits")
+                run.dist("final_model_type", obs[2]["model_type"])
         # the stored document is what the final components say
         doc = model.to_dict()["submodels"]
         for comp, res in model.model.items():
@@ -893,7 +921,8 @@ def main():
         "then in a warm cooling climate; oracle against the data object of the last fit) and baselines whose selected split has three "
         "components in non-sorted insertion order (closed at weekends, weekday cooling regime Jun-Sep / heating otherwise) and the "
         "billing-settings profile (BillingWeightedModel on 11-13 billing periods; limits judged with the DECLARED segment_minimum_count, "
-        "component settings compared with the declared ones); every OptimizedResult of fit_components and "
+        "component settings compared with the declared ones) and one-sided soft-knee baselines (selected sub-model hdd_tidd_smooth / "
+        "tidd_cdd_smooth; the public _predict_submodel on the baseline temperatures must reproduce the fitted values); every OptimizedResult of fit_components and "
         "model is one evaluation; the days of a component are recomputed from the data object, not read from the model. bounds: start boxes and "
         "get_bnds(x0) rows with every degenerate pattern (zero slopes -> [0,0], identical non-zero, [0,2x0], [2x0,0], reversed, "
         "negative, equal balance-point limits, identical quantiles, new_bnds=None) through the three *_update_bnds functions as "
@@ -932,12 +961,12 @@ def main():
         run.finish()
     if os.environ.get("C12_ONLYFITS") != "1":
         stream_witness(run)
-        stream_refine(run, run.n(2000, 60000))
-        stream_bounds(run, run.n(600, 20000))
+        stream_refine(run, run.n(1500, 60000))
+        stream_bounds(run, run.n(400, 20000))
         stream_from_np(run, run.n(400, 10000))
         stream_params_order(run, run.n(24, 600))
     if os.environ.get("C12_NOFITS") != "1":
-        stream_fits(run, run.n(10, 200), n_reused=run.n(3, 30), n_split=run.n(1, 12), n_weighted=run.n(2, 20))
+        stream_fits(run, run.n(10, 200), n_reused=run.n(3, 30), n_split=run.n(1, 12), n_weighted=run.n(2, 20), n_knee=run.n(2, 20))
     run.finish()
 
 
